@@ -37,7 +37,7 @@ func ruleR16_3(w *World, r *Report) {
 		if f == nil || f.Pkg == nil || f.Pkg.Pkg.Path() != pService {
 			continue
 		}
-		if f.Name() == "finalize" || f.Name() == "commitToMongoDB" {
+		if oldFuncName(f) == "finalize" || oldFuncName(f) == "commitToMongoDB" {
 			continue
 		}
 		pred := v.reach([]*ssa.Function{f}, nil)
